@@ -21,7 +21,9 @@ SPEC = dict(
         "transition; non-trivial = distinct transitions that are a torchjd call on a state where at least one requested .grad "
         "already exists (accumulation rather than creation)"
     ),
-    bound=dict(quick="13 programs x 2 initial states (all None / arbitrary content) x all histories of <= 4 events", thorough="<= 6 events"),
+    bound=dict(quick="16 programs (incl. transposed leaves, parameters used through their transpose, aggregator weights requiring grad, empty "
+                    "parameters, generator inputs, empty shared list) x 2 initial states (all None / arbitrary content, non-contiguous for 2-d) x all histories of <= 4 events; "
+                    "plus pre-existing .grad fields that are one tensor / overlapping views of one buffer", thorough="<= 6 events"),
     assumptions=[
         "graphs without retain_grad() tensors; deterministic aggregators (Constant, Mean, UPGrad)",
         "the graph is retained (retain_graph=True) so that calls can be repeated; freed-graph behaviour is C13",
